@@ -47,6 +47,13 @@ type Rule struct {
 	ToDest       string
 	RejectWith   string
 
+	// StateFirst: the state match was loaded before the protocol's own
+	// match (tcp, udp, icmp), as in "-p tcp -m state --state NEW --dport 22"
+	// where the tcp match is only loaded when --dport is read. It has no
+	// influence on what the rule matches (not part of Canon), but
+	// iptables-save prints the matches in the order they were loaded.
+	StateFirst bool
+
 	// Raw holds, per canonical option name, the text as it was written
 	// (negation position and arguments). Only used to measure how much two
 	// spellings of one rule differ; not part of the rule.
@@ -455,6 +462,7 @@ func ParseRule(line string) (chain string, r *Rule, err error) {
 	}
 	opts := map[string]optT{}
 	var matches []string
+	stateAt, protoMatchAt := -1, -1
 	i := 2
 	neg := false
 	for i < len(t) {
@@ -495,6 +503,16 @@ func ParseRule(line string) (chain string, r *Rule, err error) {
 		i += n
 		if neg && !negatable[opt] {
 			return "", nil, unsup("negated %q", opt)
+		}
+		switch {
+		case opt == "-m" && strings.ToLower(args[0]) == "state":
+			if stateAt < 0 {
+				stateAt = i
+			}
+		case opt == "-m", opt == "--sport", opt == "--dport", opt == "--syn", opt == "--tcp-flags", opt == "--icmp-type":
+			if protoMatchAt < 0 {
+				protoMatchAt = i
+			}
 		}
 		if opt == "-m" {
 			matches = append(matches, strings.ToLower(args[0]))
@@ -650,6 +668,7 @@ func ParseRule(line string) (chain string, r *Rule, err error) {
 	} else if hasMatch("state") {
 		return "", nil, unsup("-m state without --state")
 	}
+	r.StateFirst = stateAt >= 0 && protoMatchAt >= 0 && stateAt < protoMatchAt
 	if o, ok := opts["-j"]; ok {
 		r.Jump = o.args[0]
 	}
